@@ -303,6 +303,12 @@ impl ReaderState {
         }
     }
 
+    /// Number of elements that are started, but not yet ended
+    #[inline]
+    pub fn opened_depth(&self) -> usize {
+        self.opened_starts.len()
+    }
+
     #[inline]
     pub fn close_expanded_empty(&mut self) -> BytesEnd<'static> {
         self.state = ParseState::InsideText;
